@@ -122,8 +122,76 @@ def named_groups(pattern):
     return out
 
 
+def _digits_only(items, first=True):
+    """Does the parsed regex (re._parser items) match only strings int()
+    accepts: an optional leading sign followed by at least one digit?"""
+    import re._constants as C
+    import re._parser as P
+    seen_digit = [False]
+
+    def digit_item(op, av):
+        if op is C.LITERAL:
+            return chr(av).isdigit()
+        if op is C.IN:
+            for o, a in av:
+                if o is C.LITERAL and chr(a).isdigit():
+                    continue
+                if o is C.RANGE and chr(a[0]).isdigit() and \
+                        chr(a[1]).isdigit():
+                    continue
+                if o is C.CATEGORY and a is C.CATEGORY_DIGIT:
+                    continue
+                return False
+            return True
+        return False
+
+    def walk(seq, allow_sign):
+        for i, (op, av) in enumerate(seq):
+            if allow_sign and i == 0:
+                # [+-] or -? in front
+                if op is C.IN and all(o is C.LITERAL and chr(a) in '+-'
+                                      for o, a in av):
+                    continue
+                if op is C.MAX_REPEAT and av[0] == 0 and av[1] == 1 and \
+                        len(av[2]) == 1 and (
+                        (av[2][0][0] is C.LITERAL and chr(
+                            av[2][0][1]) in '+-') or
+                        (av[2][0][0] is C.IN and all(
+                            o is C.LITERAL and chr(a) in '+-'
+                            for o, a in av[2][0][1]))):
+                    continue
+                if op is C.LITERAL and chr(av) in '+-':
+                    continue
+            if digit_item(op, av):
+                seen_digit[0] = True
+                continue
+            if op in (C.MAX_REPEAT, C.MIN_REPEAT):
+                lo, hi, sub = av
+                if not walk(list(sub), False):
+                    return False
+                continue
+            if op is C.SUBPATTERN:
+                if not walk(list(av[3]), False):
+                    return False
+                continue
+            if op is C.BRANCH:
+                for alt in av[1]:
+                    if not walk(list(alt), False):
+                        return False
+                continue
+            return False
+        return True
+    return walk(list(items), first) and seen_digit[0]
+
+
 def group_is_int(body):
-    return bool(INT_GROUP.match(body))
+    if INT_GROUP.match(body):
+        return True
+    try:
+        import re._parser as P
+        return _digits_only(P.parse(body))
+    except Exception:
+        return False
 
 
 def group_is_float(body):
